@@ -57,6 +57,11 @@ CHECKS = {
             "For ALL points of each system's domain and ALL vector components z3 decides: scalar round trips (6 pairs), direct = via third system (6 triples), M M^T = I, det M = 1, reverse = inverse, base vectors = textbook local basis = normalised position derivatives (Lame coefficients), convert_point / convert_vector preserve Cartesian position / components.",
             "Trusted: z3 nlsat, the sound trig/atan2 axioms of vlib/s2smt.py, the textbook position maps and bases in checks/c15.py. Polar axis, origin and angles outside the principal ranges are outside.",
             "3.15"),
+    "C11": ("S", "other",
+            "real rebase / curvilinear arithmetic / field rebase executed on symbolic components, points and an uninterpreted field; sqrt/atan2/acos/sin/cos translated with definitional axioms; identities decided by z3 (QF_NRA); refusals enumerated",
+            "For ALL vectors and points away from the singularities z3 decides both round trips for both pairs, that curvilinear dot product, magnitude and scaling equal the Cartesian ones, and that a rebased scalar field has the same value at the same physical point (both directions, principal ranges); the finite set of refusal combinations is enumerated completely.",
+            "Trusted: z3 nlsat, the sound trig axioms of vlib/s2smt.py, sympy.vector.express, the textbook position maps in checks/c11.py. Singular points and non-principal angles are outside.",
+            "3.11"),
 }
 
 NOT_APPLICABLE = {
